@@ -141,10 +141,10 @@ func TestC02(t *testing.T) {
 
 	p = c.rec.NewPart("rapid_fragments", "rapid over the HTML fragment grammar", true, false, "")
 	g := gen.HTMLInput()
-	c.Rapid(p, 8, pick(30000, 800000), func(rt *rapid.T, sh int) ev.Case { return c02Case(g.Draw(rt, "in")) })
+	c.Rapid(p, 8, pick(60000, 900000), func(rt *rapid.T, sh int) ev.Case { return c02Case(g.Draw(rt, "in")) })
 	p = c.rec.NewPart("rapid_bytes", "rapid: arbitrary byte strings up to 48 bytes", true, false, "")
 	bg := gen.Bytes(48)
-	c.Rapid(p, 4, pick(25000, 600000), func(rt *rapid.T, sh int) ev.Case { return c02Case(bg.Draw(rt, "in")) })
+	c.Rapid(p, 4, pick(50000, 700000), func(rt *rapid.T, sh int) ev.Case { return c02Case(bg.Draw(rt, "in")) })
 	p = c.rec.NewPart("rapid_long_inputs", "rapid: fragment pair repeated to 4..64 kB plus a hostile tail", true, false, "")
 	c.Rapid(p, 4, pick(150, 3000), func(rt *rapid.T, sh int) ev.Case {
 		u := rapid.SampledFrom(gen.FragHTML).Draw(rt, "unit") + rapid.SampledFrom(gen.FragHTML).Draw(rt, "unit2")
